@@ -142,3 +142,18 @@ Proof. split; eexists; split; reflexivity. Qed.
 Lemma dispatch_own_name t :
   t <> INPUT -> exists h, lookup_processing processings (gname t) = Some h /\ htype h = t.
 Proof. intros N. destruct t; try contradiction; eexists; split; reflexivity. Qed.
+
+Lemma opname_no_cr t : t <> INPUT -> has_char ch_cr (opname t) = false.
+Proof. intros N. destruct t; try contradiction; reflexivity. Qed.
+
+(* T7's theorem in one statement: the name format_gate prints for a type, read back through the
+   dispatch table (the parser upper-cases it), gives a handler that builds that type and binds
+   exactly the operand counts the type's operator accepts *)
+Theorem print_then_dispatch t :
+  t <> INPUT ->
+  exists h, lookup_processing processings (upper (opname t)) = Some h /\ htype h = t
+            /\ forall n, handler_accepts h n = den_accepts t n.
+Proof.
+  intros N. destruct (opname_dispatch t N) as [h [H1 H2]]. exists h. repeat split; auto.
+  intros n. apply opname_arity; assumption.
+Qed.
